@@ -61,6 +61,29 @@ def net_body_paths(cat):
         raise AnalysisError("anchor vanished: no packet-type lookup reached from dataReceived")
 
 
+def equals_const(conds, term, value):
+    """What the branch conditions say about `term == value`: True, False or None (not tested).  Understands ==, !=, the
+    truthiness of the term (for value 0) and negations."""
+    for c in conds:
+        t, pol = c.term, c.pol
+        while isinstance(t, tuple) and t and t[0] == "not":
+            t, pol = t[1], not pol
+        if isinstance(t, tuple) and t and t[0] == "cmp" and len(t) == 4:
+            op, l, r = t[1], t[2], t[3]
+            if r == term and l == ("const", value):
+                l, r = r, l
+            if l == term and r == ("const", value):
+                if op == "==":
+                    return pol
+                if op == "!=":
+                    return not pol
+                if value == 0 and op == ">":      # unsigned quantities: > 0 means != 0
+                    return not pol
+        if value == 0 and (t == term or (isinstance(t, tuple) and t and t[0] == "truthy" and t[1] == term)):
+            return not pol
+    return None
+
+
 def after(events, ev):
     """Events of a (flat) list after `ev`."""
     out = []
